@@ -148,7 +148,10 @@ class SyncedDict(SyncedCollection, MutableMapping):
                         # are updated recursively below.
                         if type(new_value) is type(existing) and new_value == existing:
                             continue
-                        if _sc_resolver.get_type(existing) == "SYNCEDCOLLECTION":
+                        if (
+                            new_value is not None
+                            and _sc_resolver.get_type(existing) == "SYNCEDCOLLECTION"
+                        ):
                             try:
                                 existing._update(new_value)
                                 continue
